@@ -107,7 +107,9 @@ def verus_obligations(prop, unit_name, tier):
         short = q.split('::')[-1]
         if not fr.errors:
             o.verdict = 'undecided'; o.reason = 'verifier reported failure without a diagnostic'
-        elif classes == {'semantic'} and short not in lost:
+        elif 'semantic' in classes and classes <= {'semantic', 'rlimit'} and short not in lost:
+            # a resource limit hit while Verus kept searching for FURTHER errors of the same function does not retract the
+            # failed obligation it already reported with a counter-model
             o.verdict = 'refuted'
         else:
             o.verdict = 'undecided'
